@@ -341,6 +341,13 @@ static void check_one(const FDir &d, const std::string &prefix, const std::strin
         printf("  format=\"%s\" args=[%s] cls=%s\n", vf::esc(fmt.data(), fmt.size()).c_str(), pf::args_text(args.data(), (int)args.size()).c_str(),
                cls.c_str());
     g_feat[(int)(strchr(CONVS, d.conv) - CONVS)]++;
+    {
+        // directive/value state coverage: (conversion, flag set, width form, precision, value class)
+        bool pg = d.pk == P_LIT || d.pk == P_DOT || (d.pk == P_STAR && d.prec >= 0);
+        uint64_t st = (uint64_t)(unsigned char)d.conv | ((uint64_t)d.flags << 8) | ((uint64_t)(d.wk == W_NONE ? 0 : d.width < 0 ? 2 : 1) << 16) |
+                      ((uint64_t)(pg ? (d.pk == P_DOT ? 0 : d.prec) + 1 : 0) << 20);
+        vf::state(vf::hash_bytes(val_class(d.x), strlen(val_class(d.x)), st));
+    }
     for (int i = 0; i < 5; i++)
         if (d.flags & (1u << i))
             g_feat[8 + i]++;
